@@ -11,6 +11,7 @@ CVC5 = "/usr/bin/cvc5"
 Z3 = "z3-new"
 
 LATE_AFTER = 3.0
+CROSS_GRACE = 4.0
 
 WORKDIR = os.path.join(os.path.dirname(os.path.dirname(os.path.abspath(__file__))), ".work")
 
@@ -78,8 +79,13 @@ def solve_text(text, name, budget, need="unsat", both=False, backends=("z3", "cv
                     outs[b] = (out or "")[:1500] + (err or "")[:500]
                     times[b] = time.time() - t0
                     del procs[b]
-            if not both and any(a in ("sat", "unsat") for a in answers.values()):
-                break
+            if any(a in ("sat", "unsat") for a in answers.values()):
+                if not both:
+                    break
+                # cross-check mode: the other back ends get a short grace period to agree or disagree
+                first_t = min(times[b] for b, a in answers.items() if a in ("sat", "unsat"))
+                if time.time() - t0 > first_t + CROSS_GRACE:
+                    break
             if procs:
                 time.sleep(0.004)
     finally:
